@@ -165,6 +165,23 @@ func TestBigInt(t *testing.T) {
 				t.Fatal("Rsh")
 			}
 		}
+		// Or of non-negative operands: bounds, and addition when the bit ranges are disjoint
+		if x.Sign() >= 0 {
+			ya := new(big.Int).Abs(y)
+			o := new(big.Int).Or(x, ya)
+			if o.Cmp(x) < 0 || o.Cmp(ya) < 0 || o.Cmp(new(big.Int).Add(x, ya)) > 0 {
+				t.Fatal("Or bounds")
+			}
+			kk := uint(1 + rng.Intn(16))
+			hi := new(big.Int).Lsh(x, kk)
+			lo := new(big.Int).Rand(rng, new(big.Int).Lsh(big.NewInt(1), kk))
+			if new(big.Int).Or(hi, lo).Cmp(new(big.Int).Add(hi, lo)) != 0 || new(big.Int).Or(lo, hi).Cmp(new(big.Int).Add(hi, lo)) != 0 {
+				t.Fatal("Or of disjoint bit ranges != Add")
+			}
+			if z := new(big.Int).Set(hi); z.Or(z, lo).Cmp(new(big.Int).Add(hi, lo)) != 0 {
+				t.Fatal("Or aliasing")
+			}
+		}
 		// Int64 wraps to the low 64 bits
 		lo := new(big.Int).And(new(big.Int).Abs(x), new(big.Int).SetUint64(^uint64(0))).Uint64()
 		want := int64(lo)
